@@ -12,7 +12,7 @@ From Bardolph Require Import Base.PyNum Num.UnitsQ Gen.ParamGen Gen.ColorsysGen 
 Close Scope Q_scope.
 Open Scope Z_scope.
 
-Theorem C14_shapes_current : small_shapes_ok = true.
+Theorem C14_shapes_current : c14_shapes_ok = true.
 Proof. reflexivity. Qed.
 Print Assumptions C14_shapes_current.
 
